@@ -235,4 +235,5 @@ var execThroughFiles = []string{
 	"cosmos-sdk@v0.45.2/types/int.go",
 	"cosmos-sdk@v0.45.2/types/uint.go",
 	"cosmos-sdk@v0.45.2/types/coin.go",
+	"cosmos-sdk@v0.45.2/types/decimal.go",
 }
